@@ -554,7 +554,23 @@ def r15(ctx):
         raise AnalysisBroken('C20.R15: only %d uses of a malloc\'ed member buffer found' % n)
 
 
+def r19(ctx):
+    ctx.mark('transport-close', 'C20.R19')
+    ctx.rule('C20.R19', 'a closed transport forgets what it had buffered: FileTransport::close() sets m_bufLen to 0 on every path - '
+             'open() does not touch the buffer, and the frame decoder leaves the first byte of an incomplete sequence there, so '
+             'after a reconnect stale bytes would be glued in front of the new data', minimum=1)
+    fb = ctx.fb
+    fn = fb.fn('ebusd::FileTransport::close')
+    ctx.touch(fn)
+    z = set(nid for nid, d, rhs, op, lhs in fn.assignments() if d == 'this.m_bufLen' and op == '=' and rhs is not None and fn.val(rhs) == 0)
+    # a transport that is already closed (m_fd == -1) was reset when it was closed
+    cut = fn.edges_with_atom('(this.m_fd == #-1)', True)
+    kept = fn.reaches_point(fn.entry, (fn.exit, 0), z, cut_edges=cut)
+    ctx.ob('C20.R19', fn, fn.body, bool(z) and not kept, 'buffered length in close()', 'reset on every path: %s' % (bool(z) and not kept))
+
+
 def run(ctx):
+    r19(ctx)
     r15(ctx)
     ctx.rule('C20.R16', 'a position searched in a string is used on the same content: no path leads from pos = s.find...() through '
              'a statement that replaces or shortens s to a use of pos as start of s.substr/at/erase/insert/replace or as '
